@@ -369,10 +369,8 @@ pub(crate) fn prepare_insertion_ctx(insertion_ctx: &mut InsertionContext) {
 pub(crate) fn finalize_insertion_ctx(insertion_ctx: &mut InsertionContext) {
     finalize_unassigned(insertion_ctx, UnassignmentInfo::Unknown);
 
-    insertion_ctx.problem.goal.accept_solution_state(&mut insertion_ctx.solution);
-
     // NOTE: some features can add an empty route while handling insertion failure (e.g. tour duration limit)
-    insertion_ctx.solution.remove_empty_routes();
+    insertion_ctx.restore();
 }
 
 pub(crate) fn apply_insertion_success(insertion_ctx: &mut InsertionContext, success: InsertionSuccess) {
